@@ -41,6 +41,21 @@ pub fn gen_history(ctx: &Ctx, max_updates: usize, objstm_bias: bool, allow_junk:
     }
     let mut g = gen::Gen::new(ctx, cfg);
     let m = g.gen_doc();
+    let mut m = m;
+    // rare class: a large file (offsets whose middle and high bytes are non-zero: wide W fields,
+    // predictor arithmetic on large byte values)
+    if !objstm_bias && ctx.chance(W, 1, 12, "large-file") {
+        let mut id = m.objects.keys().map(|k| k.0).max().unwrap_or(0) + 1;
+        for _ in 0..2 + ctx.draw(W, 3, "large-streams") {
+            let n = 20_000 + ctx.draw(W, 30_000, "large-stream-len") as usize;
+            let mut x = simcore::Xoshiro::new(ctx.draw(W, 0, "large-stream-seed"));
+            let body: Vec<u8> = (0..n).map(|_| x.next() as u8).collect();
+            m.objects.insert((id, 0), MObj::Stream(vec![(b"Length".to_vec(), MObj::Int(n as i64))], body));
+            id += 1;
+        }
+        m.max_id = m.max_id.max(id);
+        ctx.count("large-file-docs");
+    }
     let mut revisions = vec![Revision { objects: m.objects.clone(), trailer: pdfmodel::trailer_payload(&m.trailer) }];
     let n_updates = if max_updates == 0 { 0 } else { ctx.draw(W, max_updates as u64 + 1, "n-updates") as usize };
     let mut all_ids: Vec<(u32, u16)> = m.objects.keys().cloned().collect();
